@@ -33,7 +33,9 @@ const retAddressArrayConst = 3
 
 func updateChar(pj *internalParsedJson, idx_in uint64) (done bool, idx uint64) {
 	if pj.indexesChan.index >= pj.indexesChan.length {
+		simHook(simCRecv, pj, 0)
 		pj.indexesChan = <-pj.indexChans // Get next element from channel
+		simHook(simCReceived, pj, pj.indexesChan.index)
 		done = pj.indexesChan.index == -1
 		if done {
 			return
@@ -75,10 +77,12 @@ func parseString(pj *ParsedJson, idx uint64, maxStringSize uint64, needCopy bool
 	// Make sure that we have at least one full YMM word available after maxStringSize into the buffer
 	if len(buf)-int(maxStringSize) < 64 {
 		if len(buf) > 512-64 { // only allocated if needed
+			simProbe(simProbeStringPadLarge)
 			paddedBuf := make([]byte, len(buf)+64)
 			copy(paddedBuf, buf)
 			buf = paddedBuf
 		} else {
+			simProbe(simProbeStringPadSmall)
 			paddedBuf := [512]byte{}
 			copy(paddedBuf[:], buf)
 			buf = paddedBuf[:]
@@ -94,6 +98,7 @@ func parseString(pj *ParsedJson, idx uint64, maxStringSize uint64, needCopy bool
 		strs := pj.Strings.B
 		requiredLen := uint64(len(strs)) + size + 32
 		if requiredLen >= uint64(cap(strs)) {
+			simProbe(simProbeStringsRegrow)
 			newSize := uint64(cap(strs) * 2)
 			if newSize < requiredLen {
 				newSize = requiredLen + size // add size once more to account for further space
